@@ -5,7 +5,9 @@ the whole process group down), spawns a few `sleep` processes the way
 Popen._launch_task does (start_new_session = rcfg.new_session_per_task), cancels
 one of them through the real cancel_task and reports who died.
 
-usage: python kill_probe.py <new_session 0|1> <n_procs>
+usage: python kill_probe.py <new_session 0|1> <n_procs> [gone]
+       gone: the named process has ended and was reaped (the watcher polled it) before
+             cancel_task is called - the call has to return normally, nobody else dies
 prints one JSON line: {"events": [...]} in the ExecutorTrace event format
 '''
 
@@ -20,6 +22,7 @@ import subprocess as sp
 def main():
     ns = bool(int(sys.argv[1]))
     n  = int(sys.argv[2])
+    gone = len(sys.argv) > 3 and sys.argv[3] == 'gone'
     here = os.path.dirname(os.path.dirname(os.path.dirname(os.path.abspath(__file__))))
     sys.path.insert(0, here)
     from harness import rpshim
@@ -32,13 +35,20 @@ def main():
     procs = {}
     events = []
     for u in uids:
-        procs[u] = sp.Popen(['sleep', '30'], stdin=None, stdout=sp.DEVNULL, stderr=sp.STDOUT,
+        cmd = ['true'] if (gone and u == uids[0]) else ['sleep', '30']
+        procs[u] = sp.Popen(cmd, stdin=None, stdout=sp.DEVNULL, stderr=sp.STDOUT,
                             start_new_session=ns, close_fds=True)
         events.append({'who': 'intake', 'ev': 'Accept', 'uid': u})
         events.append({'who': 'intake', 'ev': 'Spawn',  'uid': u})
     events.append({'who': 'control', 'ev': 'CancelMsg', 'uid': 'none', 'uids': [uids[0]]})
     events.append({'who': 'control', 'ev': 'KillProbe', 'uid': uids[0]})
-    lm.cancel_task({'uid': uids[0]}, procs[uids[0]].pid)          # the real one
+    raised = 'none'
+    if gone:
+        procs[uids[0]].wait()                                     # ended and reaped: the pid is free
+    try:
+        lm.cancel_task({'uid': uids[0]}, procs[uids[0]].pid)      # the real one
+    except Exception as e:
+        raised = type(e).__name__
     time.sleep(0.3)
     died = {}
     for u in uids:
@@ -47,7 +57,7 @@ def main():
             died[u] = rc
             events.append({'who': 'proc:' + u, 'ev': 'ProbeExit', 'uid': u, 'code': str(rc)})
     events.append({'who': 'rig', 'ev': 'ProbeEnd', 'uid': 'none', 'target': uids[0],
-                   'dead': sorted(died), 'new_session': ns})
+                   'dead': sorted(died), 'new_session': ns, 'gone': gone, 'raised': raised})
     for u in uids:
         if procs[u].poll() is None:
             procs[u].kill()
@@ -59,7 +69,8 @@ if __name__ == '__main__':
     # we may be the victim of a wrong group kill: report that, too
     def _term(sig, frame):
         print(json.dumps({'events': [{'who': 'rig', 'ev': 'ProbeEnd', 'uid': 'none', 'target': 'none',
-                                      'dead': ['<agent>'], 'new_session': bool(int(sys.argv[1]))}],
+                                      'dead': ['<agent>'], 'new_session': bool(int(sys.argv[1])),
+                                      'gone': False, 'raised': 'none'}],
                           'uids': [], 'agent_killed': True}))
         sys.stdout.flush()
         os._exit(3)
